@@ -1,9 +1,14 @@
 package main
 
 import (
+	"database/sql"
+	"database/sql/driver"
 	"errors"
 	"fmt"
 	"strings"
+	"time"
+
+	"go.lstv.dev/util/date"
 )
 
 // Caller-defined string and byte-slice types that describe themselves differently from what they
@@ -52,4 +57,32 @@ func errTypeHas(err error, prefix string) bool {
 		}
 	}
 	return false
+}
+
+// Scan sources that are not a time.Time: typed nil pointers (also to types whose value-receiver Value
+// method would be promoted to the pointer), driver.Valuer implementations of every temper, sql.Null*
+// wrappers, channels and functions. None may make Scan panic; an error leaves the receiver alone.
+type (
+	valuerErr   struct{}
+	valuerPanic struct{}
+	valuerSelf  struct{ depth int }
+)
+
+func (valuerErr) Value() (driver.Value, error) { return nil, errors.New("valuer failed") }
+func (valuerPanic) Value() (driver.Value, error) {
+	panic("Value called on a source Scan should not unwrap")
+}
+func (v valuerSelf) Value() (driver.Value, error) { return valuerSelf{v.depth + 1}, nil }
+
+func hostileScanSources() []any {
+	var np *date.Date
+	var nt *time.Time
+	var nnt *sql.NullTime
+	var nns *sql.NullString
+	var ns *string
+	var ni *int
+	var nv *valuerErr
+	s := "2021-01-01"
+	return []any{np, nt, nnt, nns, ns, ni, nv, &s, sql.NullTime{}, &sql.NullTime{}, sql.NullString{String: s, Valid: true}, sql.RawBytes(s), valuerErr{}, &valuerErr{}, valuerSelf{}, (*valuerSelf)(nil),
+		func() {}, make(chan int), []any(nil), map[string]any(nil), (*struct{})(nil), new(any), [3]int{}, uintptr(0), complex(1, 2), time.Duration(5), time.Month(3), date.New(2021, 1, 1), new(date.Date)}
 }
